@@ -425,6 +425,11 @@ def oracle(scn, res):
             if last.get((pid, ci), -1) > seq:
                 per_cons_order.append((c["id"], pid, ci, last[(pid, ci)], seq))
             last[(pid, ci)] = max(last.get((pid, ci), -1), seq)
+    for c in scn["cons"]:
+        if any(l == "closed nil-from-select" for l in logs.get("cons-%d" % c["id"], [])) and not c["in_main"]:
+            bad.append(("select-close-cross-thread-nil", "consumer %d blocked in ev/%s on thread channels %r was woken by a close from another thread "
+                        "with nil instead of [:close chan]" % (c["id"], c["mode"], c["chans"])))
+            break
     for key in dup:
         bad.append(("duplicate", "message %r delivered %d times: %r" % (key, len(got[key]), [(a, b) for a, b, _ in got[key]])))
     missing = sorted(k for k in sent if k not in got)
